@@ -6466,8 +6466,9 @@ def jobs_unmasked_passthrough(methods):
 
 # ------------------------------------------------------------------------------------------------ C03: reducing through a record
 @guard
-def h_record_reduce(nfields, length):
-    """RecordArray::reduce_next: every field is reduced on its own with the very same request - over exactly the first `length` entries of its
+def h_record_reduce(nfields, length, method='reduce_next'):
+    """RecordArray::reduce_next (method: also sort_next / argsort_next, which treat fields the same way; their answers keep the number of
+    records): every field is reduced on its own with the very same request - over exactly the first `length` entries of its
     content (a field content may be longer than the record array: the groups in `parents` describe `length` entries) - and the answer is a
     record array of `outlength` records holding, field by field, what each content answered"""
     nc = NodeCtx(['REC', 'IA', 'IDX', 'CNT', 'UTL', 'KD', 'IDS'], [], unwind=max(12, 3 * nfields + 10))
@@ -6480,9 +6481,11 @@ def h_record_reduce(nfields, length):
         nm, info = nc.content_info(argv[1], st, eng)
         first = z3.simplify(z3.Select(info['atoms'], BV(0)))
         seen.append(dict(pc=st.pc, info=info, args=tuple(argv[2:])))
-        nc._ret(st, argv[0], nc.fresh_content(eng, st, argv[7], z3.Lambda([kk], ANS(first + kk)), derived='answer'))
+        anslen = argv[7] if method == 'reduce_next' else info['length']
+        nc._ret(st, argv[0], nc.fresh_content(eng, st, anslen, z3.Lambda([kk], ANS(first + kk)), derived='answer'))
         return None
-    nc.m.eng.stubs['vf$slot%d' % nc.slot('11reduce_nextERKNS_7ReducerEl')] = stub
+    frag_ = {'reduce_next': '11reduce_nextERKNS_7ReducerEl', 'sort_next': '9sort_nextElRKNS_7IndexOfIlEES4_lbb', 'argsort_next': '12argsort_nextElRKNS_7IndexOfIlEES4_S4_lbb'}[method]
+    nc.m.eng.stubs['vf$slot%d' % nc.slot(frag_)] = stub
     this, vals, lens = build_record(nc, nfields, length)
 
     def index64(name, count):
@@ -6495,11 +6498,19 @@ def h_record_reduce(nfields, length):
     nc.m.assume(negaxis >= 1, negaxis <= 4, outl >= 0, outl <= 3)
     f1, f2 = nc.m.bv('maskflag', 1), nc.m.bv('keepdims', 1)
     reducer = nc.m.record('reducer', {0: (NULL, 8)}, const=True)
-    args = [reducer, negaxis, starts, shifts, parents, outl, f1, f2]
+    if method == 'reduce_next':
+        args = [reducer, negaxis, starts, shifts, parents, outl, f1, f2]
+        sym_ = '_ZNK7awkward11RecordArray11reduce_nextERKNS_7ReducerEl'
+    elif method == 'sort_next':
+        args = [negaxis, starts, parents, outl, f1, f2]
+        sym_ = '_ZNK7awkward11RecordArray9sort_nextEl'
+    else:
+        args = [negaxis, starts, shifts, parents, outl, f1, f2]
+        sym_ = '_ZNK7awkward11RecordArray12argsort_nextEl'
     nc.m.record('ret', {})
-    cands = [f for mod_ in nc.m.eng.mods for f in mod_.func_src if f.startswith('_ZNK7awkward11RecordArray11reduce_nextERKNS_7ReducerEl')]
+    cands = [f for mod_ in nc.m.eng.mods for f in mod_.func_src if f.startswith(sym_)]
     out = nc.m.call(cands[0], [Ptr('ret', 0), this] + args)
-    obls = [('reduce_next does not raise', out.raised), ('every field content is asked', z3.BoolVal(len(seen) != nfields))]
+    obls = [('%s does not raise' % method, out.raised)] + ([('every field content is asked', z3.BoolVal(len(seen) != nfields))] if length or method == 'reduce_next' else [])
     for k, ob in enumerate(seen):
         g = ob['pc']
         obls.append(('field %d is reduced over exactly the %d entries of the record array' % (k, length), z3.And(g, ob['info']['length'] != length)))
@@ -6518,14 +6529,16 @@ def h_record_reduce(nfields, length):
             continue
         if res['cls'] != 'record' or len(res['contents']) != nfields:
             obls.append(('the answer is a record array with the same fields', g)); continue
-        obls.append(('the answer has one record per group', z3.And(g, res['length'] != outl)))
+        obls.append(('the answer has one record per group', z3.And(g, res['length'] != outl)) if method == 'reduce_next' else ('the answer has as many records as before', z3.And(g, res['length'] != length)))
         for k, c in enumerate(res['contents']):
             ok_ = c['cls'] == 'opaque' and c.get('derived') == 'answer'
             obls.append(('field %d of the answer is what its content answered' % k, z3.And(g, z3.BoolVal(not ok_))))
             if ok_ and length:
-                obls.append(('field %d of the answer comes from field %d' % (k, k), z3.And(g, outl > 0, z3.Select(c['atoms'], BV(0)) != ANS(BV(k * BASE)))))
+                obls.append(('field %d of the answer comes from field %d' % (k, k), z3.And(g, outl > 0 if method == 'reduce_next' else z3.BoolVal(True), z3.Select(c['atoms'], BV(0)) != ANS(BV(k * BASE)))))
 
     def replay(model, ent):
+        if method != 'reduce_next':
+            return False, 'sorting records is replayed through the reduction only', {}
         if nfields == 0:
             return False, 'records without fields are not replayed', {}
         # field k: length + 2 numbers (longer than the record array), all records in one group: sum over exactly the first `length`
@@ -6537,10 +6550,15 @@ def h_record_reduce(nfields, length):
             exp[str(k)] = sum(vals_[:length])
         prog += 'tuple %d %d regular %d 1 reduce sum 1 0 0' % (nfields, length, length) if length else 'tuple %d 0 regular 0 1 reduce sum 1 0 0' % nfields
         return akrun_check(prog, [exp], 'sum(axis=1) over one list of %d records whose field contents are 2 entries longer' % length)
-    return mdischarge(nc.m, 'RecordArray::reduce_next, %d fields, %d records' % (nfields, length), obls, [('a field content longer than the record array', lens[0] > length)] if nfields else [], replay=replay,
+    return mdischarge(nc.m, 'RecordArray::%s, %d fields, %d records' % (method, nfields, length), obls, [('a field content longer than the record array', lens[0] > length)] if nfields else [], replay=(replay if method == 'reduce_next' else None),
                       prefer=[x <= length + 2 for x in lens], extra=dict(bounds='%d fields, %d records (case split); field content lengths, every argument symbolic' % (nfields, length)))
 
 
 def jobs_record_reduce(tier):
     q = [(2, 2), (1, 0)] if tier == 'quick' else [(2, 2), (1, 0), (3, 1), (1, 3), (0, 2)]
     return [(h_record_reduce, a, 900) for a in q]
+
+
+def jobs_record_sort(tier):
+    q = [(2, 2), (1, 1)] if tier == 'quick' else [(2, 2), (1, 1), (3, 1), (1, 3), (2, 0)]
+    return [(h_record_reduce, a + (m_,), 900) for a in q for m_ in ('sort_next', 'argsort_next')]
